@@ -22,7 +22,7 @@ def main():
             b = sh("/venv/bin/python %s/tools/baseline_off.py --repo %s" % (HERE, wt))
             out["baseline_survives"] = b.returncode == 0
             out["baseline"] = b.stdout.strip()[-200:]
-            env = dict(os.environ, CPVERIF_REPO=wt)
+            env = dict(os.environ, CPVERIF_REPO=wt, CPVERIF_OUT=os.path.join(scratch, "out"))
             out["alarms"] = {}
             for prop in props:
                 c = sh("%s/vcheck %s quick" % (HERE, prop), cwd=HERE, env=env)
